@@ -49,6 +49,12 @@ META = {
         "Trusts numpy, python dict/tuple equality as the definition of row equality; float rows are generated away from rounding boundaries.",
         "DESIGN.md section 4 C06",
     ),
+    "C17": (
+        "enumerated grid (geometry kind x copy method x edited side x every single edit) + hypothesis edit histories; behavioural snapshot oracle",
+        "Generated search: every geometry kind in a drawn state (Trimesh cold/warm with colour/texture/PBR visuals, attributes, nested metadata; Box/Sphere/Cylinder/Capsule/Extrusion with non-default parameters; Path2D/3D; PointCloud; nested instanced Scene; VoxelGrid of each encoding) is copied by .copy() (each keyword form), copy.copy and copy.deepcopy; the copy's snapshot (geometry, parameters, visuals, metadata, attributes, derived values) must equal the original's, copying must not change the original, and after each of a drawn sequence of in-place / API edits of one side the other side's snapshot must be unchanged. A complete grid covers kind x copy method x side x each single edit. Exploration only.",
+        "Verdict is behavioural (snapshots), so sharing of read-only cached arrays is allowed; texture image buffers compared by content only.",
+        "DESIGN.md section 4 C17",
+    ),
 }
 
 def main():
